@@ -41,50 +41,79 @@ type Accounting struct {
 // CheckFile is the C07/C12 oracle at a transaction boundary: the independent decoder must account for every
 // page exactly once, its logical content must equal the model, and the database's own statistics and
 // integrity check must agree.
-func (x *Exec) CheckFile(what string) (*Accounting, *Fail) {
+func (x *Exec) CheckFile(what string) (*Accounting, *Fail) { return x.CheckFileSel(what, nil) }
+
+// CheckFileSel is CheckFile restricted to the given failure classes (nil = all):
+// format, accounting, stats, freelist, txcheck.
+func (x *Exec) CheckFileSel(what string, sel map[string]bool) (*Accounting, *Fail) {
+	var first *Fail
 	fail := func(class, f string, a ...interface{}) *Fail {
+		if sel != nil && !sel[class] {
+			return nil
+		}
 		return &Fail{Kind: "mismatch", At: -1, Msg: what + " [" + class + "]: " + fmt.Sprintf(f, a...)}
 	}
+	_ = first
 	im, st, err := DecodeFile(x.Path, x.Cfg.PageSize)
 	if err != nil {
-		return nil, fail("format", "%v", err)
+		return nil, &Fail{Kind: "mismatch", At: -1, Msg: what + " [format]: " + err.Error()}
 	}
 	acc := &Accounting{State: st, Image: im}
 	if len(st.Problems) > 0 {
-		return acc, fail("accounting", "%d problem(s), first: %s", len(st.Problems), st.Problems[0])
+		if f := fail("accounting", "%d problem(s), first: %s", len(st.Problems), st.Problems[0]); f != nil {
+			return acc, f
+		}
 	}
 	if st.Meta.Txid != x.CommittedID {
-		return acc, fail("format", "winning meta txid %d, expected %d", st.Meta.Txid, x.CommittedID)
+		if f := fail("format", "winning meta txid %d, expected %d", st.Meta.Txid, x.CommittedID); f != nil {
+			return acc, f
+		}
 	}
 	if int(st.Meta.PageSize) != x.Cfg.PageSize {
-		return acc, fail("format", "meta page size %d, db page size %d", st.Meta.PageSize, x.Cfg.PageSize)
+		if f := fail("format", "meta page size %d, db page size %d", st.Meta.PageSize, x.Cfg.PageSize); f != nil {
+			return acc, f
+		}
 	}
 	for i, m := range im.Metas {
 		if !m.Valid {
-			return acc, fail("format", "meta %d invalid (%s) at rest", i, m.Why)
+			if f := fail("format", "meta %d invalid (%s) at rest", i, m.Why); f != nil {
+				return acc, f
+			}
 		}
 		if m.PageID != uint64(i) || m.PFlags != boltfmt.FlagMeta {
-			return acc, fail("format", "meta %d page header id=%d flags=%#x", i, m.PageID, m.PFlags)
+			if f := fail("format", "meta %d page header id=%d flags=%#x", i, m.PageID, m.PFlags); f != nil {
+				return acc, f
+			}
 		}
 		if m.Txid%2 != uint64(i) {
-			return acc, fail("format", "meta slot %d holds txid %d", i, m.Txid)
+			if f := fail("format", "meta slot %d holds txid %d", i, m.Txid); f != nil {
+				return acc, f
+			}
 		}
 	}
-	if (st.Meta.Freelist == boltfmt.NoFreelist) != x.Cfg.NoFreelistSync && !x.Cfg.ReadOnly {
-		return acc, fail("format", "freelist persisted=%v but NoFreelistSync=%v", st.Meta.Freelist != boltfmt.NoFreelist, x.Cfg.NoFreelistSync)
+	if x.LastKind == "commit" && (st.Meta.Freelist == boltfmt.NoFreelist) != x.Cfg.NoFreelistSync {
+		if f := fail("format", "freelist persisted=%v but NoFreelistSync=%v", st.Meta.Freelist != boltfmt.NoFreelist, x.Cfg.NoFreelistSync); f != nil {
+			return acc, f
+		}
 	}
 	tree, err := FromFmt(st.Root)
 	if err != nil {
-		return acc, fail("format", "%v", err)
+		if f := fail("format", "%v", err); f != nil {
+			return acc, f
+		}
 	}
 	tree.Seq = 0
 	for k, e := range tree.Ent {
 		if e.Sub == nil {
-			return acc, fail("format", "root bucket holds plain key %q", k)
+			if f := fail("format", "root bucket holds plain key %q", k); f != nil {
+				return acc, f
+			}
 		}
 	}
 	if d := refmodel.Diff(tree, x.Committed, ""); d != "" {
-		return acc, fail("format", "decoded file(left) vs model(right): %s", d)
+		if f := fail("format", "decoded file(left) vs model(right): %s", d); f != nil {
+			return acc, f
+		}
 	}
 	// what the database itself reports
 	if x.DB != nil && !x.Poisoned {
@@ -97,7 +126,9 @@ func (x *Exec) CheckFile(what string) (*Accounting, *Fail) {
 		if !x.Cfg.NoStats && (!x.Cfg.ReadOnly || x.Cfg.PreLoad) {
 			s := x.DB.Stats()
 			if s.FreePageN+s.PendingPageN != nfree {
-				return acc, fail("stats", "Stats free %d + pending %d != %d free pages in file", s.FreePageN, s.PendingPageN, nfree)
+				if f := fail("stats", "Stats free %d + pending %d != %d free pages in file", s.FreePageN, s.PendingPageN, nfree); f != nil {
+					return acc, f
+				}
 			}
 		}
 		if flst := bolt.VerifFreelist(x.DB); flst != nil {
@@ -105,33 +136,45 @@ func (x *Exec) CheckFile(what string) (*Accounting, *Fail) {
 			mem := map[common.Pgid]bool{}
 			for _, id := range d.Free {
 				if mem[id] {
-					return acc, fail("freelist", "in-memory free list holds %d twice", id)
+					if f := fail("freelist", "in-memory free list holds %d twice", id); f != nil {
+						return acc, f
+					}
 				}
 				mem[id] = true
 			}
 			for _, l := range d.Pending {
 				for _, p := range l {
 					if mem[p.ID] {
-						return acc, fail("freelist", "in-memory list holds %d twice (pending)", p.ID)
+						if f := fail("freelist", "in-memory list holds %d twice (pending)", p.ID); f != nil {
+							return acc, f
+						}
 					}
 					mem[p.ID] = true
 				}
 			}
 			if len(mem) != nfree {
-				return acc, fail("freelist", "in-memory free+pending %d ids, file says %d", len(mem), nfree)
+				if f := fail("freelist", "in-memory free+pending %d ids, file says %d", len(mem), nfree); f != nil {
+					return acc, f
+				}
 			}
 			for id, u := range st.Use {
 				if (u == boltfmt.UseFree) != mem[common.Pgid(id)] {
-					return acc, fail("freelist", "page %d: file use %q, in in-memory list: %v", id, u, mem[common.Pgid(id)])
+					if f := fail("freelist", "page %d: file use %q, in in-memory list: %v", id, u, mem[common.Pgid(id)]); f != nil {
+						return acc, f
+					}
 				}
 			}
 		}
-		if f := x.TxCheck(what); f != nil {
-			return acc, f
+		if sel == nil || sel["txcheck"] {
+			if f := x.TxCheck(what); f != nil {
+				return acc, f
+			}
 		}
 	}
 	if fi, err := os.Stat(x.Path); err == nil && uint64(fi.Size()) < st.Meta.Pgid*uint64(x.Cfg.PageSize) {
-		return acc, fail("accounting", "file length %d below high-water mark", fi.Size())
+		if f := fail("accounting", "file length %d below high-water mark", fi.Size()); f != nil {
+			return acc, f
+		}
 	}
 	return acc, nil
 }
